@@ -741,6 +741,12 @@ let rec flat_map f = function
 | [] -> []
 | x :: t -> app (f x) (flat_map f t)
 
+(** val fold_right : ('a2 -> 'a1 -> 'a1) -> 'a1 -> 'a2 list -> 'a1 **)
+
+let rec fold_right f a0 = function
+| [] -> a0
+| b :: t -> f b (fold_right f a0 t)
+
 (** val existsb : ('a1 -> bool) -> 'a1 list -> bool **)
 
 let rec existsb f = function
@@ -4698,6 +4704,358 @@ let run_store cmd a =
                 (forallb (fun p -> approx_row (fst p) (snd p)) (combine s d))))
        else None
 
+type vec = (q * q) * q
+
+type mat = (vec * vec) * vec
+
+(** val vadd : vec -> vec -> vec **)
+
+let vadd a b =
+  let (p, a3) = a in
+  let (a1, a2) = p in
+  let (p0, b3) = b in
+  let (b1, b2) = p0 in
+  (((qred (qplus a1 b1)), (qred (qplus a2 b2))), (qred (qplus a3 b3)))
+
+(** val vsub : vec -> vec -> vec **)
+
+let vsub a b =
+  let (p, a3) = a in
+  let (a1, a2) = p in
+  let (p0, b3) = b in
+  let (b1, b2) = p0 in
+  (((qred (qminus a1 b1)), (qred (qminus a2 b2))), (qred (qminus a3 b3)))
+
+(** val vdot : vec -> vec -> q **)
+
+let vdot a b =
+  let (p, a3) = a in
+  let (a1, a2) = p in
+  let (p0, b3) = b in
+  let (b1, b2) = p0 in
+  qred (qplus (qplus (qmult a1 b1) (qmult a2 b2)) (qmult a3 b3))
+
+(** val mv : mat -> vec -> vec **)
+
+let mv m v0 =
+  let (p, r3) = m in
+  let (r1, r2) = p in (((vdot r1 v0), (vdot r2 v0)), (vdot r3 v0))
+
+(** val vscale : q -> vec -> vec **)
+
+let vscale k = function
+| (p, a3) ->
+  let (a1, a2) = p in
+  (((qred (qmult k a1)), (qred (qmult k a2))), (qred (qmult k a3)))
+
+(** val vsum : vec list -> vec **)
+
+let vsum l =
+  fold_right vadd (({ qnum = Z0; qden = XH }, { qnum = Z0; qden = XH }),
+    { qnum = Z0; qden = XH }) l
+
+(** val mean : vec list -> vec **)
+
+let mean l =
+  vscale
+    (qdiv { qnum = (Zpos XH); qden = XH } (inject_Z (Z.of_nat (length l))))
+    (vsum l)
+
+(** val superpose_selection :
+    mat -> vec list -> vec list -> vec list -> vec list **)
+
+let superpose_selection rmat sel_mob sel_tar xyz =
+  let cm = mean sel_mob in
+  let ct = mean sel_tar in map (fun x -> vadd (mv rmat (vsub x cm)) ct) xyz
+
+(** val xyz_of : row -> vec **)
+
+let xyz_of r =
+  match nth (S (S (S (S (S (S (S O))))))) r VNull with
+  | VReal x ->
+    (match nth (S (S (S (S (S (S (S (S O)))))))) r VNull with
+     | VReal y ->
+       (match nth (S (S (S (S (S (S (S (S (S O))))))))) r VNull with
+        | VReal z0 -> ((x, y), z0)
+        | _ ->
+          (({ qnum = Z0; qden = XH }, { qnum = Z0; qden = XH }), { qnum = Z0;
+            qden = XH }))
+     | _ ->
+       (({ qnum = Z0; qden = XH }, { qnum = Z0; qden = XH }), { qnum = Z0;
+         qden = XH }))
+  | _ ->
+    (({ qnum = Z0; qden = XH }, { qnum = Z0; qden = XH }), { qnum = Z0;
+      qden = XH })
+
+(** val pairs_of_tuples : row list list -> vec list * vec list **)
+
+let pairs_of_tuples tuples =
+  ((map (fun t -> xyz_of (nth O t [])) tuples),
+    (map (fun t -> xyz_of (nth (S O) t [])) tuples))
+
+(** val paired_selections :
+    row list -> row list -> (vec list * vec list) res **)
+
+let paired_selections sel_mobile sel_target =
+  if Nat.eqb (length sel_mobile) (length sel_target)
+  then Ok ((map xyz_of sel_mobile), (map xyz_of sel_target))
+  else bind (snapshot sel_mobile) (fun a ->
+         bind (snapshot sel_target) (fun b -> Ok
+           (pairs_of_tuples
+             (join ((S O) :: ((S (S (S O))) :: ((S (S (S (S (S O))))) :: ((S
+               (S (S (S O)))) :: [])))) (a :: (b :: []))))))
+
+(** val set_xyz : row -> vec -> row **)
+
+let set_xyz r = function
+| (p, z0) ->
+  let (x, y) = p in
+  map (fun iv ->
+    match fst iv with
+    | O -> snd iv
+    | S n0 ->
+      (match n0 with
+       | O -> snd iv
+       | S n1 ->
+         (match n1 with
+          | O -> snd iv
+          | S n2 ->
+            (match n2 with
+             | O -> snd iv
+             | S n3 ->
+               (match n3 with
+                | O -> snd iv
+                | S n4 ->
+                  (match n4 with
+                   | O -> snd iv
+                   | S n5 ->
+                     (match n5 with
+                      | O -> snd iv
+                      | S n6 ->
+                        (match n6 with
+                         | O -> VReal x
+                         | S n7 ->
+                           (match n7 with
+                            | O -> VReal y
+                            | S n8 ->
+                              (match n8 with
+                               | O -> VReal z0
+                               | S _ -> snd iv))))))))))
+    (combine (seq O (length r)) r)
+
+(** val superpose :
+    mat -> row list -> row list -> row list -> row list res **)
+
+let superpose rmat mobile sel_mobile sel_target =
+  bind (paired_selections sel_mobile sel_target) (fun p ->
+    let new0 = superpose_selection rmat (fst p) (snd p) (map xyz_of mobile) in
+    Ok (map (fun rv -> set_xyz (fst rv) (snd rv)) (combine mobile new0)))
+
+(** val det : mat -> q **)
+
+let det = function
+| (p, v0) ->
+  let (v1, v2) = p in
+  let (p0, c) = v1 in
+  let (a, b) = p0 in
+  let (p1, f) = v2 in
+  let (d, e) = p1 in
+  let (p2, i) = v0 in
+  let (g, h) = p2 in
+  qplus
+    (qminus (qmult a (qminus (qmult e i) (qmult f h)))
+      (qmult b (qminus (qmult d i) (qmult f g))))
+    (qmult c (qminus (qmult d h) (qmult e g)))
+
+(** val shared_pairs : row list -> row list -> vec list * vec list **)
+
+let shared_pairs sel_mobile sel_target =
+  pairs_of_tuples
+    (join ((S O) :: ((S (S (S O))) :: ((S (S (S (S (S O))))) :: ((S (S (S (S
+      O)))) :: [])))) (sel_mobile :: (sel_target :: [])))
+
+(** val close_to : q -> q -> q -> bool **)
+
+let close_to eps a b =
+  qleb (qabs (qminus a b)) eps
+
+(** val is_rotation_eps : q -> mat -> bool **)
+
+let is_rotation_eps eps m = match m with
+| (p, r3) ->
+  let (r1, r2) = p in
+  (&&)
+    ((&&)
+      ((&&)
+        ((&&)
+          ((&&)
+            ((&&) (close_to eps (vdot r1 r1) { qnum = (Zpos XH); qden = XH })
+              (close_to eps (vdot r2 r2) { qnum = (Zpos XH); qden = XH }))
+            (close_to eps (vdot r3 r3) { qnum = (Zpos XH); qden = XH }))
+          (close_to eps (vdot r1 r2) { qnum = Z0; qden = XH }))
+        (close_to eps (vdot r1 r3) { qnum = Z0; qden = XH }))
+      (close_to eps (vdot r2 r3) { qnum = Z0; qden = XH }))
+    (close_to eps (det m) { qnum = (Zpos XH); qden = XH })
+
+(** val vec_of_V : v -> vec **)
+
+let vec_of_V v0 =
+  (((getQ (nth O (getL v0) (VZ Z0))), (getQ (nth (S O) (getL v0) (VZ Z0)))),
+    (getQ (nth (S (S O)) (getL v0) (VZ Z0))))
+
+(** val mat_of_V : v -> mat **)
+
+let mat_of_V v0 =
+  (((vec_of_V (nth O (getL v0) (VZ Z0))),
+    (vec_of_V (nth (S O) (getL v0) (VZ Z0)))),
+    (vec_of_V (nth (S (S O)) (getL v0) (VZ Z0))))
+
+(** val vvec : vec -> v **)
+
+let vvec = function
+| (p, z0) ->
+  let (x, y) = p in
+  VL ((vQ (qred x)) :: ((vQ (qred y)) :: ((vQ (qred z0)) :: [])))
+
+(** val rows_of_V : v -> row list **)
+
+let rows_of_V v0 =
+  map row_of_V (getL v0)
+
+(** val run_superpose : string -> v list -> v option **)
+
+let run_superpose cmd a =
+  if eqb1 cmd (String ((Ascii (true, true, false, false, true, true, true,
+       false)), (String ((Ascii (true, false, true, false, true, true, true,
+       false)), (String ((Ascii (false, false, false, false, true, true,
+       true, false)), (String ((Ascii (true, false, true, false, false, true,
+       true, false)), (String ((Ascii (false, true, false, false, true, true,
+       true, false)), (String ((Ascii (false, false, false, false, true,
+       true, true, false)), (String ((Ascii (true, true, true, true, false,
+       true, true, false)), (String ((Ascii (true, true, false, false, true,
+       true, true, false)), (String ((Ascii (true, false, true, false, false,
+       true, true, false)), (String ((Ascii (false, true, true, true, false,
+       true, false, false)), (String ((Ascii (true, false, true, true, false,
+       true, true, false)), (String ((Ascii (true, true, true, true, false,
+       true, true, false)), (String ((Ascii (false, false, true, false,
+       false, true, true, false)), (String ((Ascii (true, false, true, false,
+       false, true, true, false)), (String ((Ascii (false, false, true, true,
+       false, true, true, false)), EmptyString))))))))))))))))))))))))))))))
+  then Some
+         (vres
+           (bind
+             (superpose (mat_of_V (nth O a (VZ Z0)))
+               (rows_of_V (nth (S O) a (VZ Z0)))
+               (rows_of_V (nth (S (S O)) a (VZ Z0)))
+               (rows_of_V (nth (S (S (S O))) a (VZ Z0)))) (fun new0 -> Ok (VL
+             (map (fun r -> vvec (xyz_of r)) new0)))))
+  else if eqb1 cmd (String ((Ascii (true, true, false, false, true, true,
+            true, false)), (String ((Ascii (true, false, true, false, true,
+            true, true, false)), (String ((Ascii (false, false, false, false,
+            true, true, true, false)), (String ((Ascii (true, false, true,
+            false, false, true, true, false)), (String ((Ascii (false, true,
+            false, false, true, true, true, false)), (String ((Ascii (false,
+            false, false, false, true, true, true, false)), (String ((Ascii
+            (true, true, true, true, false, true, true, false)), (String
+            ((Ascii (true, true, false, false, true, true, true, false)),
+            (String ((Ascii (true, false, true, false, false, true, true,
+            false)), (String ((Ascii (false, true, true, true, false, true,
+            false, false)), (String ((Ascii (false, false, false, false,
+            true, true, true, false)), (String ((Ascii (true, false, false,
+            false, false, true, true, false)), (String ((Ascii (true, false,
+            false, true, false, true, true, false)), (String ((Ascii (false,
+            true, false, false, true, true, true, false)), (String ((Ascii
+            (true, false, true, false, false, true, true, false)), (String
+            ((Ascii (false, false, true, false, false, true, true, false)),
+            EmptyString))))))))))))))))))))))))))))))))
+       then Some
+              (vres
+                (bind
+                  (paired_selections (rows_of_V (nth O a (VZ Z0)))
+                    (rows_of_V (nth (S O) a (VZ Z0)))) (fun pq -> Ok (VL ((VL
+                  (map vvec (fst pq))) :: ((VL (map vvec (snd pq))) :: []))))))
+       else if eqb1 cmd (String ((Ascii (true, true, false, false, true,
+                 true, true, false)), (String ((Ascii (false, false, false,
+                 false, true, true, true, false)), (String ((Ascii (true,
+                 false, true, false, false, true, true, false)), (String
+                 ((Ascii (true, true, false, false, false, true, true,
+                 false)), (String ((Ascii (false, true, true, true, false,
+                 true, false, false)), (String ((Ascii (true, true, false,
+                 false, true, true, true, false)), (String ((Ascii (true,
+                 false, true, false, true, true, true, false)), (String
+                 ((Ascii (false, false, false, false, true, true, true,
+                 false)), (String ((Ascii (true, false, true, false, false,
+                 true, true, false)), (String ((Ascii (false, true, false,
+                 false, true, true, true, false)), (String ((Ascii (false,
+                 false, false, false, true, true, true, false)), (String
+                 ((Ascii (true, true, true, true, false, true, true, false)),
+                 (String ((Ascii (true, true, false, false, true, true, true,
+                 false)), (String ((Ascii (true, false, true, false, false,
+                 true, true, false)), (String ((Ascii (false, true, true,
+                 true, false, true, false, false)), (String ((Ascii (true,
+                 true, false, false, true, true, true, false)), (String
+                 ((Ascii (false, false, false, true, false, true, true,
+                 false)), (String ((Ascii (true, false, false, false, false,
+                 true, true, false)), (String ((Ascii (false, true, false,
+                 false, true, true, true, false)), (String ((Ascii (true,
+                 false, true, false, false, true, true, false)), (String
+                 ((Ascii (false, false, true, false, false, true, true,
+                 false)), (String ((Ascii (true, true, true, true, true,
+                 false, true, false)), (String ((Ascii (false, false, false,
+                 false, true, true, true, false)), (String ((Ascii (true,
+                 false, false, false, false, true, true, false)), (String
+                 ((Ascii (true, false, false, true, false, true, true,
+                 false)), (String ((Ascii (false, true, false, false, true,
+                 true, true, false)), (String ((Ascii (true, true, false,
+                 false, true, true, true, false)),
+                 EmptyString))))))))))))))))))))))))))))))))))))))))))))))))))))))
+            then let (p, q0) =
+                   shared_pairs (rows_of_V (nth O a (VZ Z0)))
+                     (rows_of_V (nth (S O) a (VZ Z0)))
+                 in
+                 Some (VL ((VL (map vvec p)) :: ((VL (map vvec q0)) :: [])))
+            else if eqb1 cmd (String ((Ascii (true, true, false, false, true,
+                      true, true, false)), (String ((Ascii (false, false,
+                      false, false, true, true, true, false)), (String
+                      ((Ascii (true, false, true, false, false, true, true,
+                      false)), (String ((Ascii (true, true, false, false,
+                      false, true, true, false)), (String ((Ascii (false,
+                      true, true, true, false, true, false, false)), (String
+                      ((Ascii (true, true, false, false, true, true, true,
+                      false)), (String ((Ascii (true, false, true, false,
+                      true, true, true, false)), (String ((Ascii (false,
+                      false, false, false, true, true, true, false)), (String
+                      ((Ascii (true, false, true, false, false, true, true,
+                      false)), (String ((Ascii (false, true, false, false,
+                      true, true, true, false)), (String ((Ascii (false,
+                      false, false, false, true, true, true, false)), (String
+                      ((Ascii (true, true, true, true, false, true, true,
+                      false)), (String ((Ascii (true, true, false, false,
+                      true, true, true, false)), (String ((Ascii (true,
+                      false, true, false, false, true, true, false)), (String
+                      ((Ascii (false, true, true, true, false, true, false,
+                      false)), (String ((Ascii (true, false, false, true,
+                      false, true, true, false)), (String ((Ascii (true,
+                      true, false, false, true, true, true, false)), (String
+                      ((Ascii (true, true, true, true, true, false, true,
+                      false)), (String ((Ascii (false, true, false, false,
+                      true, true, true, false)), (String ((Ascii (true, true,
+                      true, true, false, true, true, false)), (String ((Ascii
+                      (false, false, true, false, true, true, true, false)),
+                      (String ((Ascii (true, false, false, false, false,
+                      true, true, false)), (String ((Ascii (false, false,
+                      true, false, true, true, true, false)), (String ((Ascii
+                      (true, false, false, true, false, true, true, false)),
+                      (String ((Ascii (true, true, true, true, false, true,
+                      true, false)), (String ((Ascii (false, true, true,
+                      true, false, true, true, false)),
+                      EmptyString))))))))))))))))))))))))))))))))))))))))))))))))))))
+                 then Some
+                        (vB
+                          (is_rotation_eps (getQ (nth O a (VZ Z0)))
+                            (mat_of_V (nth (S O) a (VZ Z0)))))
+                 else None
+
 (** val vresS : string res -> v **)
 
 let vresS = function
@@ -4887,28 +5245,33 @@ let run = function
                     (match run_store cmd args with
                      | Some r -> r
                      | None ->
-                       vErr (String ((Ascii (true, false, true, false, true,
-                         true, true, false)), (String ((Ascii (false, true,
-                         true, true, false, true, true, false)), (String
-                         ((Ascii (true, true, false, true, false, true, true,
-                         false)), (String ((Ascii (false, true, true, true,
-                         false, true, true, false)), (String ((Ascii (true,
-                         true, true, true, false, true, true, false)),
-                         (String ((Ascii (true, true, true, false, true,
-                         true, true, false)), (String ((Ascii (false, true,
-                         true, true, false, true, true, false)), (String
-                         ((Ascii (true, false, true, true, false, true,
-                         false, false)), (String ((Ascii (true, true, false,
-                         false, false, true, true, false)), (String ((Ascii
-                         (true, true, true, true, false, true, true, false)),
-                         (String ((Ascii (true, false, true, true, false,
-                         true, true, false)), (String ((Ascii (true, false,
-                         true, true, false, true, true, false)), (String
-                         ((Ascii (true, false, false, false, false, true,
-                         true, false)), (String ((Ascii (false, true, true,
-                         true, false, true, true, false)), (String ((Ascii
-                         (false, false, true, false, false, true, true,
-                         false)), EmptyString)))))))))))))))))))))))))))))))))))
+                       (match run_superpose cmd args with
+                        | Some r -> r
+                        | None ->
+                          vErr (String ((Ascii (true, false, true, false,
+                            true, true, true, false)), (String ((Ascii
+                            (false, true, true, true, false, true, true,
+                            false)), (String ((Ascii (true, true, false,
+                            true, false, true, true, false)), (String ((Ascii
+                            (false, true, true, true, false, true, true,
+                            false)), (String ((Ascii (true, true, true, true,
+                            false, true, true, false)), (String ((Ascii
+                            (true, true, true, false, true, true, true,
+                            false)), (String ((Ascii (false, true, true,
+                            true, false, true, true, false)), (String ((Ascii
+                            (true, false, true, true, false, true, false,
+                            false)), (String ((Ascii (true, true, false,
+                            false, false, true, true, false)), (String
+                            ((Ascii (true, true, true, true, false, true,
+                            true, false)), (String ((Ascii (true, false,
+                            true, true, false, true, true, false)), (String
+                            ((Ascii (true, false, true, true, false, true,
+                            true, false)), (String ((Ascii (true, false,
+                            false, false, false, true, true, false)), (String
+                            ((Ascii (false, true, true, true, false, true,
+                            true, false)), (String ((Ascii (false, false,
+                            true, false, false, true, true, false)),
+                            EmptyString))))))))))))))))))))))))))))))))))))
       | _ ->
         vErr (String ((Ascii (false, true, false, false, false, true, true,
           false)), (String ((Ascii (true, false, false, false, false, true,
